@@ -54,6 +54,20 @@ type L2Cfg struct {
 	DictCap    int
 	BufSize    int
 	Matcher    int
+	// Pre (configuration history): a Writer2Config variable is filled with Pre and verified, then
+	// every field is set to this configuration's values and the writer is created from that variable
+	Pre *L2Cfg `json:",omitempty"`
+}
+
+func (c L2Cfg) build() lzma.Writer2Config {
+	if c.Pre == nil {
+		return c.cfg()
+	}
+	w := c.Pre.cfg()
+	_ = w.Verify()
+	f := c.cfg()
+	w.Properties, w.DictCap, w.BufSize, w.Matcher = f.Properties, f.DictCap, f.BufSize, f.Matcher
+	return w
 }
 
 func (c L2Cfg) cfg() lzma.Writer2Config {
@@ -66,7 +80,7 @@ func (c L2Cfg) cfg() lzma.Writer2Config {
 
 func mustLibLZMA2(cfg L2Cfg, data []byte, steps []L2Step) []byte {
 	var sb sinkBuf
-	w, err := cfg.cfg().NewWriter2(&sb)
+	w, err := cfg.build().NewWriter2(&sb)
 	if err != nil {
 		panic(err)
 	}
@@ -115,6 +129,20 @@ type LZCfg struct {
 	SizeInHeader bool
 	Size         int64
 	EOS          bool
+	// Pre: configuration history as for L2Cfg (lzma.WriterConfig.Verify fills defaults in place)
+	Pre *LZCfg `json:",omitempty"`
+}
+
+func (c LZCfg) build() lzma.WriterConfig {
+	if c.Pre == nil {
+		return c.cfg()
+	}
+	w := c.Pre.cfg()
+	_ = w.Verify()
+	f := c.cfg()
+	w.Properties, w.DictCap, w.BufSize, w.Matcher = f.Properties, f.DictCap, f.BufSize, f.Matcher
+	w.SizeInHeader, w.Size, w.EOSMarker = f.SizeInHeader, f.Size, f.EOSMarker
+	return w
 }
 
 func (c LZCfg) String() string {
@@ -135,7 +163,7 @@ func (c LZCfg) cfg() lzma.WriterConfig {
 
 func mustLibLZMA(cfg LZCfg, data []byte) []byte {
 	var sb sinkBuf
-	w, err := cfg.cfg().NewWriter(&sb)
+	w, err := cfg.build().NewWriter(&sb)
 	if err != nil {
 		panic(err)
 	}
